@@ -28,6 +28,7 @@ func propC20() *Property {
 			{ID: "C20.R3", Title: "argument-wise exact-match substitution by identity", Floor: 7, Run: c20R3},
 			{ID: "C20.R4", Title: "stdin fallback only without %url, carrying the link", Floor: 1, Run: c20R4},
 			{ID: "C20.R5", Title: "media type is non-nil at every external open", Floor: 2, Run: c20R5},
+			{ID: "C20.R6", Title: "the configured hook is not rewritten between the configuration file and the hook", Floor: 1, Run: c20R6},
 		},
 	}
 }
@@ -545,4 +546,71 @@ func presentImpliesType(P *Program, nn *nonNil, fn *ssa.Function, seen map[*ssa.
 		}
 	}
 	return true, ""
+}
+
+// c20R6: "exactly the configured argv" starts at the configuration file. The
+// only stores into Media.Hook in the module are the default (a literal of
+// constant strings, stored before decoding into the same object, C19.R1) — the
+// decoder then overwrites it with what the file says. Any other store into
+// the field, or into an element of it, replaces what the user configured (an
+// argument dropped, trimmed, reordered) before openExternally ever sees it.
+func c20R6(c *Ctx) {
+	P := c.P
+	hook := P.Field("servitor/config", "Config", "Media")
+	_ = hook
+	n := 0
+	for _, fn := range P.Funcs {
+		fname := FuncName(fn)
+		eachInstr(fn, func(_ *ssa.BasicBlock, _ int, in ssa.Instruction) {
+			st, ok := in.(*ssa.Store)
+			if !ok {
+				return
+			}
+			// address: …Media.Hook, or an element of a slice loaded from it
+			isHookField := func(v ssa.Value) bool {
+				fa, ok := v.(*ssa.FieldAddr)
+				if !ok || fieldOf(fa).Name() != "Hook" {
+					return false
+				}
+				owner := structOwner(fa)
+				_ = owner
+				return strings.HasSuffix(path(fa.X), "Media") || strings.Contains(path(fa), "Media.&Hook") || strings.Contains(path(fa), ".&Media.&Hook")
+			}
+			target := ""
+			if isHookField(st.Addr) {
+				target = "field"
+			} else if ia, ok := st.Addr.(*ssa.IndexAddr); ok {
+				if ld, ok := ia.X.(*ssa.UnOp); ok && ld.Op == token.MUL && isHookField(ld.X) {
+					target = "element"
+				}
+			}
+			if target == "" {
+				return
+			}
+			n++
+			okDefault := false
+			if target == "field" {
+				// a literal of constants
+				if sl, ok := st.Val.(*ssa.Slice); ok {
+					if al, ok := sl.X.(*ssa.Alloc); ok {
+						okDefault = true
+						for _, r := range refs(al) {
+							if ia, ok := r.(*ssa.IndexAddr); ok {
+								for _, rr := range refs(ia) {
+									if s2, ok := rr.(*ssa.Store); ok {
+										if _, isC := s2.Val.(*ssa.Const); !isC {
+											okDefault = false
+										}
+									}
+								}
+							}
+						}
+					}
+				}
+			}
+			c.check(okDefault, fname+"/hook-store:"+target, P.InstrPos(in), fname, "the default hook, a literal of constants (overwritten by the decoder)",
+				"the configured media hook is rewritten after it was read: the hook program no longer receives the argv the user configured (arguments dropped, changed or reordered)")
+		})
+	}
+	c.check(n >= 1, "servitor/config/hook-stores", "config", "servitor/config", fmt.Sprintf("%d stores into Media.Hook", n), "no default hook is set any more (informational)")
 }
